@@ -72,6 +72,16 @@ CHECKS["C18"] = dict(
     technique="CrossHair+z3 over symbolic payload bytes through cli.main; pinned n/target/flags; native replay",
     design="§4 C18")
 
+CHECKS["C17"] = dict(
+    text="Partial. (1) Decision table: the real identify_pytorch_file_format is executed symbolically with property discovery stubbed to "
+         "11 symbolic booleans; Confirmed over all paths against the documented table and precedence (model.json-only row not asserted). "
+         "(2) Hygiene: the real create_polyglot and constructors run on real scratch files with the identifier's answers (7x7, incl. "
+         "'no format') and the index of one failing I/O call solver-partitioned; no temp_*/temp entry remains and the inputs are unchanged "
+         "on every exit. Not covered: marker discovery in real archive bytes, agreement with torch's loader, identification of produced polyglots.",
+    technique="CrossHair+z3: symbolic booleans through the real decision table; solver-partitioned fault/answer fan for temp-file hygiene",
+    design="§4 C17",
+    note="Partial scope: everything behind zipfile/tarfile/torch I/O is outside (C boundary realises symbolic content). " + TRUST)
+
 NOT_APPLICABLE = {
     "C16": "every observable sits behind zipfile/zlib/torch C-level I/O; symbolic inputs are realised at the first call so the solver has nothing to decide (DESIGN §5); the pickle-level half is covered by C08",
 }
